@@ -391,7 +391,13 @@ impl Exec {
                                     new.ac.iter().map(|t| t.value().to_string()).collect::<Vec<_>>().join(","),
                                     new.ordering.names().read().unwrap().len()
                                 ));
-                                out.line(&format!("~ same-as-original {}", same_as_original(&o.adf, &new)));
+                                // observable through the public API: property channel; internal
+                                // bookkeeping (unique table, memo tables): correspondence channel
+                                let v = same_as_original(&o.adf, &new);
+                                let (pubf, intf): (Vec<&str>, Vec<&str>) =
+                                    v.split(' ').partition(|w| !(w.starts_with("uniq=") || w.starts_with("memo-empty=")));
+                                out.line(&format!("= internal {}", intf.join(" ")));
+                                out.line(&format!("~ same-as-original {}", pubf.join(" ")));
                                 o.adf = new;
                                 o.trips += 1;
                                 memocheck(&o.adf.bdd, o.nv, out);
@@ -446,6 +452,6 @@ fn memocheck(bdd: &Bdd, nv: usize, out: &mut Out) {
             dump_nodes(bdd),
             crate::fam_bdd::dump_tables(bdd)
         ));
-        out.line("~ ok");
+        out.line("= audit ok");
     }
 }
